@@ -174,11 +174,26 @@ impl<'a> Gen<'a> {
             6 => { self.tags.push("conditional".into()); format!("(if {} then {} else {})", self.cond(rng, depth - 1), self.of_dim(rng, dim, depth - 1), self.of_dim(rng, dim, depth - 1)) }
             7 => { self.tags.push("poly-zero".into()); if rng.chance(1, 2) { format!("(0 + {})", self.of_dim(rng, dim, depth - 1)) } else { format!("({} - 0)", self.of_dim(rng, dim, depth - 1)) } }
             8 => { self.tags.push("convert".into()); format!("({} -> {})", self.of_dim(rng, dim, depth - 1), self.unit_of(rng, dim)) }
+            9 if rng.chance(1, 2) => {
+                // foreign functions that bring one argument into the unit of the other, with the polymorphic zero or
+                // two different units of the dimension as arguments
+                self.tags.push("ffi-two-quantities".into());
+                let a = if rng.chance(1, 3) { "0".to_string() } else { self.of_dim(rng, dim, depth - 1) };
+                let b = if rng.chance(1, 6) { "0".to_string() } else { self.of_dim(rng, dim, depth - 1) };
+                format!("mod({}, {})", a, b)
+            }
             _ => format!("({} {})", self.number(rng), self.unit_of(rng, dim)),
         }
     }
     fn scalar(&mut self, rng: &mut Rng, depth: usize) -> String {
         if depth == 0 || rng.chance(1, 2) { return self.number(rng); }
+        if rng.chance(1, 6) {
+            self.tags.push("ffi-two-quantities".into());
+            let d = (*rng.pick(&self.dims)).clone();
+            let a = if rng.chance(1, 3) { "0".to_string() } else { self.of_dim(rng, &d, depth - 1) };
+            let b = if rng.chance(1, 6) { "0".to_string() } else { self.of_dim(rng, &d, depth - 1) };
+            return format!("atan2({}, {})", a, b);
+        }
         let d = (*rng.pick(&self.dims)).clone();
         format!("({} / {})", self.of_dim(rng, &d, depth - 1), self.of_dim(rng, &d, depth - 1))
     }
@@ -220,7 +235,7 @@ impl<'a> Gen<'a> {
     }
 
     fn statement(&mut self, rng: &mut Rng) {
-        match rng.below(16) {
+        match rng.below(17) {
             0..=4 => {
                 let v = self.fresh("v");
                 let (e, d) = if rng.chance(1, 2) {
@@ -351,6 +366,29 @@ impl<'a> Gen<'a> {
                 self.checked.push(v);
                 self.checked.push(v2);
                 self.tags.push("const-exponent".into());
+            }
+            14 => {
+                // a generic struct whose type arguments are permuted / combined by an annotated function
+                let s = self.fresh("S");
+                let f = self.fresh("k");
+                let i = rng.below(NAMED_DIMS.len());
+                let j = rng.below(NAMED_DIMS.len());
+                self.stmts.push(format!("struct {}<A: Dim, B: Dim> {{ a: A, b: B }}", s));
+                let (ret, body) = *rng.pick(&[
+                    ("<B, A>", "a: p.b, b: p.a"),
+                    ("<B, A * B>", "a: p.b, b: p.a * p.b"),
+                    ("<A / B, A>", "a: p.a / p.b, b: p.a"),
+                    ("<B, B>", "a: p.b, b: 2 p.b"),
+                ]);
+                self.stmts.push(format!("fn {}<A: Dim, B: Dim>(p: {}<A, B>) -> {}{} = {} {{ {} }}", f, s, s, ret, s, body));
+                let v = self.fresh("v");
+                let (n1, u1, n2, u2) = (self.number(rng), self.named_unit(rng, i), self.number(rng), self.named_unit(rng, j));
+                self.stmts.push(format!("let {} = {}({} {{ a: {} {}, b: {} {} }})", v, f, s, n1, u1, n2, u2));
+                self.checked.push(v.clone());
+                let w = self.fresh("v");
+                self.stmts.push(format!("let {} = {}.a", w, v));
+                self.checked.push(w);
+                self.tags.push("struct-generic-permuted".into());
             }
             13 => {
                 // comparison with a polymorphic zero in a function body
